@@ -7,6 +7,7 @@ import (
 	"fmt"
 	"os"
 	"path/filepath"
+	"sort"
 	"strings"
 	"time"
 
@@ -237,24 +238,60 @@ func metaFilename(filename string) string {
 
 func (fs *filestore) Walk(ctx context.Context, bucket string, cb func(ctx context.Context, filename string, fInfo os.FileInfo) error) error {
 	root := filepath.Join(fs.gcsDir, bucket)
-	return filepath.Walk(root, func(path string, fInfo os.FileInfo, err error) error {
-		if strings.HasSuffix(path, metaExtention) {
-			// Ignore metadata files
-			return nil
-		}
-
-		filename := strings.TrimPrefix(path, root)
-		filename = strings.TrimPrefix(filename, string(os.PathSeparator))
-		if err != nil {
-			if os.IsNotExist(err) {
-				return err
-			}
-			return fmt.Errorf("walk error at %s: %w", filename, err)
-		}
-
-		if err := cb(ctx, filename, fInfo); err != nil {
+	fInfo, err := os.Lstat(root)
+	if err != nil {
+		if os.IsNotExist(err) {
 			return err
 		}
+		return fmt.Errorf("walk error at %s: %w", "", err)
+	}
+	return fs.walk(ctx, root, "", fInfo, cb)
+}
+
+// walk visits path (whose object name is filename) and everything below it in ascending bytewise order of the
+// full object names: within a directory, a subdirectory sorts as its name followed by the path separator, so that
+// e.g. "a.txt" comes before the contents of "a/". (filepath.Walk sorts by entry name only and visits "a/..." first.)
+func (fs *filestore) walk(ctx context.Context, path string, filename string, fInfo os.FileInfo, cb func(ctx context.Context, filename string, fInfo os.FileInfo) error) error {
+	if err := cb(ctx, filename, fInfo); err != nil {
+		if fInfo.IsDir() && err == filepath.SkipDir {
+			return nil
+		}
+		return err
+	}
+	if !fInfo.IsDir() {
 		return nil
-	})
+	}
+
+	entries, err := os.ReadDir(path)
+	if err != nil {
+		if os.IsNotExist(err) {
+			return err
+		}
+		return fmt.Errorf("walk error at %s: %w", filename, err)
+	}
+	sortKey := func(e os.DirEntry) string {
+		if e.IsDir() {
+			return e.Name() + string(os.PathSeparator)
+		}
+		return e.Name()
+	}
+	sort.Slice(entries, func(i, j int) bool { return sortKey(entries[i]) < sortKey(entries[j]) })
+
+	for _, e := range entries {
+		if strings.HasSuffix(e.Name(), metaExtention) {
+			// Ignore metadata files
+			continue
+		}
+		eInfo, err := e.Info()
+		if err != nil {
+			if os.IsNotExist(err) {
+				continue // removed while walking
+			}
+			return fmt.Errorf("walk error at %s: %w", filepath.Join(filename, e.Name()), err)
+		}
+		if err := fs.walk(ctx, filepath.Join(path, e.Name()), filepath.Join(filename, e.Name()), eInfo, cb); err != nil {
+			return err
+		}
+	}
+	return nil
 }
